@@ -100,14 +100,17 @@ def replay_mode(prop, path):
         rep = json.load(f)
     backend = rep.get("backend", "hist-idn2")
     b = backend.replace("hist-", "")
+    ndebug = b.endswith("-ndebug")
+    b = b.replace("-ndebug", "")
     flags = b.endswith("-flags")
     b = b.replace("-flags", "")
     extra = b.endswith("-extra")
     b = b.replace("-extra", "")
     if rep.get("lockstep"):
         exes = {}
+        variant = (rep.get("found") or {}).get("variant", "")
         for bk in ("idn2", "idn", "idnkit"):
-            exes[bk], _ = build.build_hist(bk)
+            exes[bk], _ = build.build_hist(bk, extra=(variant == "extra"), ndebug=(variant == "ndebug"))
         res = {bk: exec_plans(exes[bk], rep["plans"], log=True) for bk in exes}
         for bk, r in res.items():
             print("--- backend %s: class=%s neutral=%s" % (bk, r["cls"], r["neutral"]))
@@ -117,7 +120,7 @@ def replay_mode(prop, path):
             return 1
         print("replay: backends agree")
         return 0
-    exe, _ = build.build_hist(b, extra=extra, flags=flags)
+    exe, _ = build.build_hist(b, extra=extra, flags=flags, ndebug=ndebug)
     r = exec_plans(exe, rep["plans"], log=True)
     for l in r["logs"]:
         print("  " + l)
@@ -204,6 +207,11 @@ def c13(tier, seed):
     exe3, _ = build.build_hist("idn2", flags=True)
     build_info["flags_variant"] = "build with -DRFC6531_FOLLOW_RFC5322 -DRFC6531_FOLLOW_RFC20 -DLABELS_ALLOW_UNDERSCORE also run"
     batches.append(Batch("flags-nofault", exe3, "C13", "nofault", seed + 4, 4000 if xq else 10**8, 60 if xq else 120, W, samples=False).run())
+    # the release configuration: assert() compiled out (CFLAGS is the user's to set in both Makefiles)
+    exe4, _ = build.build_hist("idn2", ndebug=True)
+    build_info["ndebug_variant"] = "build with -DNDEBUG also run (no allocation faults there: the unchanged tree dereferences NULL)"
+    batches.append(Batch("ndebug-nofault", exe4, "C13", "nofault", seed + 5, 3000 if xq else 10**8, 60 if xq else 120, W, samples=False).run())
+    batches.append(Batch("ndebug-fault", exe4, "C13", "fault", seed + 5, 3000 if xq else 10**8, 60 if xq else 120, W, samples=False).run())
     if tier == "thorough":
         # histories of more than 2^16 operations (16-bit counters, thresholds): few, long
         batches.append(Batch("nofault-long", exe, "C13", "nofault-long", seed + 7, 64, 300, W).run())
@@ -240,6 +248,10 @@ def c19(tier, seed):
     exe2, _ = build.build_hist("idn2", extra=True)
     batches.append(Batch("extra-single", exe2, "C19", "single", seed + 1, (1 if q else 4) * per_base, 0, W).run())
     batches.append(Batch("extra-multi", exe2, "C19", "multi", seed + 1, 3000 if q else 10**8, 60, W).run())
+    exe4, _ = build.build_hist("idn2", ndebug=True)      # release configuration: assert() compiled out
+    build_info["ndebug_variant"] = "build with -DNDEBUG also run"
+    batches.append(Batch("ndebug-single", exe4, "C19", "single", seed + 5, (1 if q else 4) * per_base, 0, W).run())
+    batches.append(Batch("ndebug-multi", exe4, "C19", "multi", seed + 5, 3000 if q else 10**8, 60, W).run())
     violations, known, nondet = handle_candidates("C19", batches)
     single = batches[1]
     rule = ("plan = run of 1-50 validations in mode 6531 (eav_is_email, is_6531_email, is_utf8_domain; tld_check/allow/mode toggles in between) with "
@@ -358,6 +370,19 @@ def c18(tier, seed):
             for i in mism[:2]:
                 plan = gen_plan(exes_x["idn2"], "C18", cfg, seed + 5, i)
                 st, payload = lockstep_triage("C18", exes_x, plan, {"cfg": cfg, "seed": seed + 5, "index": i, "variant": "extra"})
+                (violations if st == "violation" else nondet).append(payload)
+    if tier == "thorough":
+        # release configuration (-DNDEBUG) of the three source sets in lock-step
+        exes_n = {}
+        for bk in ("idn2", "idn", "idnkit"):
+            exes_n[bk], _ = build.build_hist(bk, ndebug=True)
+        for cfg in ("lockstep", "lockstep-fault"):
+            bs, ncommon, mism = lockstep_compare("C18", seed + 9, cfg, exes_n, 10**8, 60, W)
+            batches += list(bs.values())
+            lock_info["ndebug-" + cfg] = {"plans_compared_across_three_backends": ncommon, "mismatching_plans": len(mism)}
+            for i in mism[:2]:
+                plan = gen_plan(exes_n["idn2"], "C18", cfg, seed + 9, i)
+                st, payload = lockstep_triage("C18", exes_n, plan, {"cfg": cfg, "seed": seed + 9, "index": i, "variant": "ndebug"})
                 (violations if st == "violation" else nondet).append(payload)
     # context ledger under backend-init faults: idnkit only
     ctxb = Batch("ctxfault-idnkit", exes["idnkit"], "C18", "ctxfault", seed, 8000 if tier == "quick" else 10**8, secs, W, samples=True).run()
